@@ -165,13 +165,9 @@ def publication():
         ob('blocks_published_before_cooked_flag', bool(i_b and i_c and max(i_b) < min(i_c)),
            'the compiled blocks are stored before the "cooked" flag is set, so a reader that sees the flag sees complete blocks')
         ob('parse_inside_lock', any('self.parse(' in s for s in inner), 'self.parse(...) runs inside the locked region')
-    call = [n for n in ast.walk(tree) if isinstance(n, ast.FunctionDef) and n.name == '__call__'][0]
-    src = ast.unparse(call)
-    ob('call_checks_flag_before_reading_blocks', src.find("hasattr(self, '_v_cooked')") >= 0
-       and src.find("hasattr(self, '_v_cooked')") < src.find('self._v_blocks'),
-       'String.__call__ tests the cooked flag (and cooks) before it reads the compiled blocks')
-    ob('call_reads_blocks_once', src.count('self._v_blocks') == 1, 'the compiled blocks are read once per call')
-    ob('namespace_per_call', 'md = TemplateDict()' in src, 'every top-level call creates its own namespace')
+    # (that String.__call__ tests the cooked flag / cooks before it renders, renders the published blocks and builds its own
+    # namespace per call are obligations over the symbolic execution of __call__ now: _publication_hook below; the earlier
+    # text matches on the source of __call__ raised a false alarm when the compile-on-first-use block was moved to a helper)
     h = ast.parse(open(os.path.join(REPO_SRC, 'DocumentTemplate/DT_HTML.py')).read())
     tagre = [n for n in ast.walk(h) if isinstance(n, ast.FunctionDef) and n.name == 'tagre']
     ob('matcher_per_parse', bool(tagre) and ast.unparse(tagre[0].body[-1]).strip() == 'return dtml_re_class()',
@@ -226,9 +222,45 @@ def _derive(key, variant, hook, **over):
     return c.func + '#' + variant
 
 
+def _publication_hook(toplevel):
+    """compile-and-publish protocol as seen from String.__call__, over its symbolic execution (helpers without a contract
+    are inlined, so it does not matter in which method the statements live): on every path that renders, the cooked flag
+    was tested; when it was found missing the template was cooked before the rendering; what is rendered is the published
+    block list self._v_blocks; a top-level call renders with a namespace created by this call."""
+    def hook(E, outcome, value, env, prefix):
+        if E.trace_truncated:
+            return
+        ob = lambda n, c, d: E.oblige('%s::frame.publish.%s' % (prefix, n), c, kind='frame', detail=d)  # noqa
+        rb = [i for i, t in enumerate(E.trace) if t[0] == 'contract-call' and t[1].endswith('.render_blocks')]
+        if not rb:
+            return
+        me = env.locals.get('self')
+        h = E.heap[me.addr]
+        cooks = [i for i, t in enumerate(E.trace) if t[0] == 'contract-call' and t[1] == S_ + '.cook']
+        tested = '_v_cooked' not in h.maybe
+        absent = '_v_cooked' in h.absent
+        ob('call_checks_flag_before_reading_blocks', bool(tested and (not absent or (cooks and cooks[0] < rb[0]))),
+           'String.__call__ tests the cooked flag, and cooks when it is missing, before it renders the compiled blocks')
+        blocks = E.trace[rb[0]][2].get('blocks')
+        ob('call_renders_the_published_blocks', bool(len(rb) == 1 and blocks is not None and blocks is h.fields.get('_v_blocks')),
+           'what is rendered is self._v_blocks (the block list published by cook), once per call')
+        if toplevel:
+            md = E.trace[rb[0]][2].get('md')
+            fresh = isinstance(md, VRef) and getattr(E.heap[md.addr], 'prov', '') == 'fresh'
+            ob('namespace_per_call', bool(fresh), 'a top-level call renders with a namespace object created by this call')
+    return hook
+
+
+def _hooks(*hs):
+    def hook(E, outcome, value, env, prefix):
+        for h_ in hs:
+            h_(E, outcome, value, env, prefix)
+    return hook
+
+
 FRAMES = [
-    _derive(S_ + '.__call__#toplevel', 'frame.toplevel', _frame_hook()),
-    _derive(S_ + '.__call__#subtemplate', 'frame.subtemplate', _frame_hook()),
+    _derive(S_ + '.__call__#toplevel', 'frame.toplevel', _hooks(_frame_hook(), _publication_hook(True))),
+    _derive(S_ + '.__call__#subtemplate', 'frame.subtemplate', _hooks(_frame_hook(), _publication_hook(False))),
 ]
 for _k in ('DocumentTemplate.DT_With.With.render', 'DocumentTemplate.DT_Let.Let.render', 'DocumentTemplate.DT_Try.Try.render_try_except',
            'DocumentTemplate.DT_Try.Try.render_try_finally', 'DocumentTemplate.DT_Raise.Raise.render', 'DocumentTemplate.DT_Return.ReturnTag.render'):
